@@ -18,6 +18,7 @@ theorem ct_sm2ScalarFermatInvert_FiatAC : check (slice prog f_fiat_sm2ScalarFerm
 theorem ct_Bytes_p : check (slice prog f_fiat_SM2Element_Bytes) sigs f_fiat_SM2Element_Bytes = true := by decide +kernel
 theorem ct_bytes_p : check (slice prog f_fiat_SM2Element_bytes) sigs f_fiat_SM2Element_bytes = true := by decide +kernel
 theorem ct_SetBytes_p : check (slice prog f_fiat_SM2Element_SetBytes) sigs f_fiat_SM2Element_SetBytes = true := by decide +kernel
+theorem ct_SetBytes_n : check (slice prog f_fiat_SM2ScalarElement_SetBytes) sigs f_fiat_SM2ScalarElement_SetBytes = true := by decide +kernel
 theorem ct_Equal_p : check (slice prog f_fiat_SM2Element_Equal) sigs f_fiat_SM2Element_Equal = true := by decide +kernel
 theorem ct_IsZero_p : check (slice prog f_fiat_SM2Element_IsZero) sigs f_fiat_SM2Element_IsZero = true := by decide +kernel
 theorem ct_ToBigInt_p : check (slice prog f_fiat_SM2Element_ToBigInt) sigs f_fiat_SM2Element_ToBigInt = true := by decide +kernel
